@@ -465,13 +465,8 @@ def lle_rules(ctx, d1):
     pairs.report(res, d1, 'LLE.get_liquid_mol_data', f)
     f = lle.methods['__call__']
 
-    def decide(t, st):
-        s = src(t)
-        if s == 'update':
-            return True
-        if s == 'top_chemical':
-            return None
-        return None
+    from ..pathcond import scenario_decide
+    decide = scenario_decide(lambda t: True if (isinstance(t, ast.Name) and t.id == 'update') else None)      # the caller asks for the flows to be updated
     ps, trunc = run_paths(f.node, decide=decide, max_paths=60000, follow_except=True)
 
     def adm(total, idx, p):
